@@ -7,6 +7,7 @@ import (
 	"math/rand"
 	"os"
 	"path/filepath"
+	"strings"
 	"time"
 
 	"github.com/benbjohnson/litestream"
@@ -116,6 +117,14 @@ func (p *primary) appWrite(kind string) error {
 		_, ex = tx.Exec(`DELETE FROM `+tbl+` WHERE id%2=?`, p.rng.Intn(2))
 	case "delete-all":
 		_, ex = tx.Exec(`DELETE FROM ` + tbl)
+	case "marker":
+		// a fresh table: its root page is written by this transaction only, so a
+		// follower that skips this TXID keeps a stale page whatever comes later
+		p.ddlN++
+		_, ex = tx.Exec(fmt.Sprintf(`CREATE TABLE m%d(id INTEGER PRIMARY KEY, v BLOB)`, p.ddlN))
+		if ex == nil {
+			_, ex = tx.Exec(fmt.Sprintf(`INSERT INTO m%d(v) VALUES(?)`, p.ddlN), p.blob(200))
+		}
 	case "ddl":
 		p.ddlN++
 		switch p.rng.Intn(3) {
@@ -154,6 +163,14 @@ func (p *primary) sync() error {
 		p.e.Logf("SyncAndWait err=%v (try %d)", err, try)
 	}
 	return fmt.Errorf("primary SyncAndWait keeps failing: %w", err)
+}
+
+// marker commits a transaction whose effect no later transaction overwrites.
+func (p *primary) marker() error {
+	if err := p.appWrite("marker"); err != nil {
+		return err
+	}
+	return p.sync()
 }
 
 // shrink makes the database file smaller (VACUUM after a mass delete), so that
@@ -236,6 +253,71 @@ func (p *primary) pruneSnapshots(pos int) bool {
 	p.e.Logf("snapshot retention: floor=%d, files now %v", minTXID, oracle.ListAll(p.e.RepPath))
 	p.res.Count("primary_snapshot_retention", 1)
 	return true
+}
+
+// deepPrune takes a snapshot at the current position and then enforces TXID
+// retention at that position on levels 1..3 (what retention does once older
+// snapshots are gone): every compaction file that ends before the snapshot is
+// removed except the newest file of its level. A follower that is down at an
+// older TXID can afterwards only catch up through several levels (e.g. the
+// surviving coarse L2 file, then the newest L1 file, then level 0).
+func (p *primary) deepPrune() {
+	info, err := p.e.LS.Snapshot(p.ctx)
+	if err != nil {
+		p.e.Logf("Snapshot err=%v", err)
+		return
+	}
+	p.res.Count("primary_snapshot", 1)
+	for level := 1; level <= 3; level++ {
+		if err := p.e.LS.EnforceRetentionByTXID(p.ctx, level, info.MaxTXID); err != nil {
+			p.e.Logf("EnforceRetentionByTXID(%d,%d) err=%v", level, info.MaxTXID, err)
+		}
+	}
+	if p.rng.Intn(2) == 0 {
+		if _, err := p.e.LS.EnforceSnapshotRetention(p.ctx, time.Now()); err != nil {
+			p.e.Logf("EnforceSnapshotRetention err=%v", err)
+		}
+	}
+	p.e.Logf("deep prune at TXID %d: files now %v", info.MaxTXID, oracle.ListAll(p.e.RepPath))
+	p.res.Count("primary_deep_prune", 1)
+}
+
+// bridgePath simulates which files lead from TXID k to the replica max using
+// levels 0..8 only (level 0 first, then the lowest level that covers the next
+// TXID). ok=false if some TXID in (k, max] is covered by no such file, i.e. the
+// follower cannot catch up incrementally. levels = distinct levels >= 1 used.
+func bridgePath(rep string, k int) (ok bool, levels int, path []string) {
+	files := oracle.ListAll(rep)
+	max := 0
+	for _, f := range files {
+		if f.Max > max {
+			max = f.Max
+		}
+	}
+	used := map[int]bool{}
+	for p := k; p < max; {
+		var pick *oracle.FileRef
+		for i := range files {
+			f := &files[i]
+			if f.Level >= litestream.SnapshotLevel || f.Min > p+1 || f.Max <= p {
+				continue
+			}
+			if pick == nil || f.Level < pick.Level {
+				pick = f
+			}
+		}
+		if pick == nil {
+			return false, len(used), path
+		}
+		if pick.Level > 0 {
+			used[pick.Level] = true
+		}
+		if n := len(path); n == 0 || !(pick.Level == 0 && strings.HasPrefix(path[n-1], "L0")) {
+			path = append(path, pick.String())
+		}
+		p = pick.Max
+	}
+	return true, len(used), path
 }
 
 func l0Set(rep string) []int {
